@@ -37,6 +37,9 @@ spec fn cval(c: u32) -> u8 { (c >> 26) as u8 }
 spec fn slot_of(c: u32, lg: u8) -> int { (cslot(c) as int) % (pow2(lg as nat) as int) }
 
 fn get_slot ( coupon : u32 ) -> ( r : u32 ) ensures r == cslot ( coupon ) {
+proof {
+assert ( coupon & 0x3ffffff == coupon % 0x4000000 && coupon & 0x3ffffff == 0x3ffffff & coupon ) by ( bit_vector ) ;
+}
 coupon & KEY_MASK_26 }
 
 
@@ -44,6 +47,7 @@ coupon & KEY_MASK_26 }
 fn get_value ( coupon : u32 ) -> ( r : u8 ) ensures r == cval ( coupon ) , r <= 63 {
 proof {
 assert ( ( coupon >> 26 ) <= 63 ) by ( bit_vector ) ;
+assert ( coupon >> 26 == coupon / 0x4000000 && ( 1u32 << 26 ) == 0x4000000 ) by ( bit_vector ) ;
 }
 ( coupon >> KEY_BITS_26 ) as u8 }
 
@@ -230,6 +234,7 @@ let byte = self . bytes [ ( slot >> 1 ) as usize ] ;
 proof {
 assert ( byte & 15 <= 15 ) by ( bit_vector ) ;
 assert ( byte >> 4 <= 15 ) by ( bit_vector ) ;
+assert ( byte & 15 == byte % 16 && byte >> 4 == byte / 16 ) by ( bit_vector ) ;
 }
 if slot & 1 == 0 {
 byte & 15 }
@@ -257,9 +262,10 @@ let byte_idx = ( slot >> 1 ) as usize ;
 let old_byte = self . bytes [ byte_idx ] ;
 proof {
 let v = value ;
-let ob = old_byte ;
+let ob = self . bytes @ [ ( slot / 2 ) as int ] ;
 assert ( v <= 15 ==> ( ( ( ob & 0xF0 ) | ( v & 0x0F ) ) & 15 ) == v && ( ( ( ob & 0xF0 ) | ( v & 0x0F ) ) >> 4 ) == ( ob >> 4 ) ) by ( bit_vector ) ;
 assert ( v <= 15 ==> ( ( ( ob & 0x0F ) | ( v << 4 ) ) >> 4 ) == v && ( ( ( ob & 0x0F ) | ( v << 4 ) ) & 15 ) == ( ob & 15 ) ) by ( bit_vector ) ;
+assert ( ( ob & 0xF0 ) | ( v & 0x0F ) == ( v & 0x0F ) | ( ob & 0xF0 ) && ( ob & 0x0F ) | ( v << 4 ) == ( v << 4 ) | ( ob & 0x0F ) ) by ( bit_vector ) ;
 }
 self . bytes [ byte_idx ] = if slot & 1 == 0 {
 ( old_byte & 0xF0 ) | ( value & 0x0F ) }
